@@ -560,3 +560,14 @@ def pinned_traces(tier):
     for d in common.corpus_decks():
         out.append({"property": ID, "seed": "dirform-%s" % d, "tier": "pinned", "deck": d, "faults": [], "form": "dir", "events": []})
     return out
+
+
+def shrink_candidates(trace):
+    out = []
+    fs = trace.get("faults", [])
+    if len(fs) > 1:
+        for i in range(len(fs)):
+            out.append(dict(trace, faults=fs[:i] + fs[i + 1:]))
+    if trace.get("form") != "stream" or trace.get("pos"):
+        out.append(dict(trace, form="stream", pos=0))
+    return out
